@@ -611,6 +611,38 @@ func ownershipBody(c *mc.Ctx, item int) mc.Verdict {
 	return mc.Pass("result-owned-by-caller", len(keep) > 0)
 }
 
+// longCompositeBody: names with many components (ToUnicode is not limited to
+// names of valid length): n components, taken in rotation from the pool
+// starting at its k-th entry, with and without a suffix.
+var longCounts = []int{4, 5, 8, 15, 16, 17, 18, 31, 32, 33, 40, 64, 100, 255, 256, 257, 1000}
+
+func longCompositeBody(c *mc.Ctx, item int) mc.Verdict {
+	n := longCounts[item%len(longCounts)]
+	rest := item / len(longCounts)
+	start := rest % len(pool)
+	suffix := []string{"", ".alt"}[rest/len(pool)]
+	parts := make([]string, n)
+	for i := range parts {
+		parts[i] = pool[(start+i)%len(pool)].s
+	}
+	name := strings.Join(parts, "_") + suffix
+	for _, ding := range []bool{false, true} {
+		want := tab.ToText(name, ding)
+		got := names.ToUnicode(name, ding)
+		c.Step()
+		if !slices.Equal(want, got) {
+			k := 0
+			for k < len(want) && k < len(got) && want[k] == got[k] {
+				k++
+			}
+			v := mc.Fail("C16:composite:many-components", fmt.Sprintf("ToUnicode of a name with %d components (first %q, suffix %q, dingbats=%v) gives %d characters, the AGL specification %d; first difference at character %d", n, parts[0], suffix, ding, len(got), len(want), k))
+			v.Render = fmt.Sprintf("%d components starting with %q", n, parts[0])
+			return v
+		}
+	}
+	return mc.Pass(fmt.Sprintf("%d-components", n), true)
+}
+
 func compositeCount(maxLen int) int {
 	n, p := 0, 1
 	for l := 1; l <= maxLen; l++ {
@@ -861,6 +893,14 @@ func main() {
 					Rule:     fmt.Sprintf("item = every sequence of 1..%d components from the pool %q joined by '_' x suffix in %q, asked with both dingbats flags, compared with aglref.ToText; non-trivial = at least two components contribute text", maxComp, poolNames, suffixes),
 					Describe: func(i int) string { p, s := decodeComposite(i); return fmt.Sprintf("components %v suffix %q", p, s) },
 					CrashKey: func(int) string { return "C16:crash:composites" },
+				},
+				{
+					Name:     "long-composites",
+					Items:    len(longCounts) * len(pool) * 2,
+					Body:     longCompositeBody,
+					Rule:     fmt.Sprintf("item = number of components in %v x rotation of the component pool (%d starting points) x suffix {none, .alt}: the name is the pool taken in rotation and joined by '_', asked with both dingbats flags, compared with aglref.ToText; non-trivial = all", longCounts, len(pool)),
+					Describe: func(i int) string { return fmt.Sprintf("%d components", longCounts[i%len(longCounts)]) },
+					CrashKey: func(int) string { return "C16:crash:long-composites" },
 				},
 				{
 					Name:     "isvalid",
